@@ -437,6 +437,13 @@ def it_stage0(ex, st, callee, args):
     return it.with_stage(re.search(r'as Iterator>::(\w+)', callee).group(1))
 
 
+@h(r'^<.* as IntoIterator>::into_iter$')
+def it_identity(ex, st, callee, args):
+    """an iterator is its own IntoIterator"""
+    if isinstance(args[0], Iter): return args[0]
+    return NotImplemented
+
+
 @h(r'^<.* as Iterator>::rev$')
 def it_rev(ex, st, callee, args):
     it = ex.deref(args[0])
